@@ -260,7 +260,7 @@ theorem nnt_ci_recip (ppf : F → F) (infv a b c d α : F) (r : Results F)
   simp only [Nat.cast_one, Nat.cast_ofNat]
   split_ifs at h <;>
     (simp only [Except.ok.injEq] at h; subst h; dsimp only
-     constructor <;> first | rw [if_pos (by assumption)] | rw [if_neg (by assumption)])
+     constructor <;> first | rw [if_pos (by assumption)] | rw [if_neg (by assumption)] | simp_all)
 
 /-- the null table: equal risks, a non-zero half-width ⇒ NNT = `infv`, limits = reciprocals of `∓ z*se` -/
 theorem nnt_ci_null (ppf : F → F) (infv a b c d α : F) (r : Results F)
